@@ -47,18 +47,16 @@ theorem mem_flatten_set {ts : List (List Act)} {t : Nat} {a : Act} {rest new : L
     | zero =>
       simp at h; subst h
       simp at hx ⊢
-      rcases hx with hx | hx | hx
-      · exact Or.inl hx
-      · exact Or.inr (Or.inl (Or.inr hx))
-      · exact Or.inr (Or.inr hx)
+      rcases hx with hx | hx | hx <;> simp [hx]
     | succ t =>
       simp at h hx ⊢
       rcases hx with hx | hx
-      · exact Or.inr (Or.inl hx)
+      · simp [hx]
       · have := ih h (by simpa using hx)
         rcases this with h1 | h1
-        · exact Or.inl h1
-        · exact Or.inr (Or.inr (by simpa using h1))
+        · simp [h1]
+        · have h2 : ∃ l, l ∈ ys ∧ x ∈ l := by simpa using h1
+          simp [h2]
 
 theorem mem_flatten_of_get {ts : List (List Act)} {t : Nat} {l : List Act} (h : ts[t]? = some l)
     {x : Act} (hx : x ∈ l) : x ∈ ts.flatten := by
